@@ -401,6 +401,7 @@ func (c *client) connectRecover(ctx async.Context) (_ internalConn, st status.St
 	if !st.OK() {
 		return nil, st
 	}
+	verifYield("client.afterDial")
 	go c.handle(conn)
 
 	// Add connection
